@@ -71,6 +71,16 @@ func genC12(r *Rng, tier string) *c12W {
 func shrinkC12(w *c12W) []interface{} {
 	var out []interface{}
 	cp := func() *c12W { n := &c12W{}; jsonClone(w, n); return n }
+	if w.Volume {
+		// thousands of elements: candidates are not materialised one by one;
+		// the volume is the point of the case, only the schedule knobs shrink
+		if w.Run.Policy != 0 || w.Run.CapDiv != 1 {
+			n := cp()
+			n.Run.Policy, n.Run.CapDiv, n.Run.StarveIdx, n.Run.StarveSite = 0, 1, 0, ""
+			out = append(out, n)
+		}
+		return out
+	}
 	for i := len(w.Graph.E) - 1; i >= 0; i-- {
 		n := cp()
 		n.Graph.E = append(n.Graph.E[:i], n.Graph.E[i+1:]...)
